@@ -41,9 +41,38 @@ def c01_jobs(tier):
     ]
 
 
+def c02_jobs(tier):
+    n = scale(tier, 100000, 4000000)
+    tag = scale(tier, "quick", "")
+    return [
+        job("rclient0", n, workers=5, tag=tag),
+        job("rclient1", n, workers=5, tag=tag),
+        job("rclient2", n, workers=6, tag=tag),
+    ]
+
+
+def c17_jobs(tier):
+    n = scale(tier, 40000, 1500000)
+    tag = scale(tier, "quick", "")
+    return [
+        job("rclient0", n, workers=5, tag=tag, step_cap=60000),
+        job("rclient1", n, workers=5, tag=tag, step_cap=60000),
+        job("rclient2", n, workers=6, tag=tag, step_cap=60000),
+    ]
+
+
+NOT_YET = {}
+
 PROPS = {
     "C01": {
         "jobs": c01_jobs,
+        "level_text": "Sampled exploration: several hundred thousand generated protocol-conforming client programs x reclaimer "
+                      "configurations x generated schedules per quick run (millions in the thorough tier), each checked against the guard "
+                      "registry (no destruction while guarded), the quarantine allocator (no access to freed memory), object identity/canary "
+                      "and xenium's own assertions. Finds violations, never proves absence.",
+        "level_note": "Trusted: the scheduler/allocator runtime (engine/vrt.cpp) and the client generator's protocol conformance; sequentially "
+                      "consistent interleavings only (weak executions belong to C03); schedules are sampled.",
+        "technique": "property-based testing: generated client programs + generated schedules vs guard-registry / quarantine-allocator oracle, trace shrinking",
         "rule": "case = generated reclaimer-client program (1-3 shared concurrent_ptr cells; 2-4 threads x up to 10 operations from "
                 "publish / unlink+reclaim / acquire / acquire_if_equal / use / copy / move / swap / reset / guard-from-marked_ptr / "
                 "region enter+leave) x reclaimer configuration x generated schedule (uniform, random quantum, PCT, long stall, k "
@@ -59,5 +88,41 @@ PROPS = {
             "region guards stay on their thread and are released before it exits",
             "schedules are sampled, not enumerated",
         ],
+    },
+    "C02": {
+        "jobs": c02_jobs,
+        "level_text": "Sampled exploration of client programs with thread lifecycles; the lifecycle registry decides exactly-once destruction by "
+                      "the matching deleter during the run and a both-directions census after a public-API flush at the quiescent end.",
+        "level_note": "Trusted: runtime, generator, and the flush protocol (64 guard+retire rounds with region entry) being sufficient for every "
+                      "configuration in the menu (validated: no leak reports on the unchanged tree, leak mutants are caught).",
+        "technique": "property-based testing: generated programs with thread generations + generated schedules vs object-lifecycle census",
+        "rule": "case = generated reclaimer-client program with thread lifecycles (2-6 thread programs, at most 1-3 alive at once, "
+                "later ones start while or after earlier ones exit with non-empty retire lists) x reclaimer configuration x generated "
+                "schedule; after the last join the main thread runs a public-API-only flush (64 rounds of region enter, guard a fresh "
+                "dummy node, reclaim it). Oracle (O-LIFE): every deleter call is for a retired, not yet destroyed object and carries the "
+                "deleter instance passed for that object; nothing is destroyed without its deleter; at the quiescent end every retired "
+                "object was destroyed exactly once and no unretired object was destroyed. Non-trivial: some object was destroyed by a "
+                "thread other than the one that retired it (hand-over happened). Distinct: program + order of destructions.",
+        "nontrivial_floor": 0.02,
+        "assumptions": ["sequentially consistent interleavings", "flush dummies are exempt from the census",
+                        "'eventually' is read as: after all threads exited and the flush ran"],
+    },
+    "C17": {
+        "jobs": c17_jobs,
+        "level_text": "Sampled exploration of thread-generation histories; C01/C02 oracles across record reuse plus a metamorphic allocation-"
+                      "accounting oracle (bookkeeping blocks flat over sequential generations, bounded by the peak of live threads).",
+        "level_note": "Trusted: runtime and allocator tagging (client nodes vs bookkeeping); the flatness relation is exact only for the "
+                      "sequential phase-2 generations, which is where it is asserted.",
+        "technique": "property-based testing: generated generation histories + schedules vs lifecycle census and metamorphic allocation accounting",
+        "rule": "case = reclaimer-client program with 3-10 thread programs in overlapping generations (at most 1-3 alive at once; "
+                "each does guarded accesses and retirements and exits at an operation boundary) x reclaimer configuration x generated "
+                "schedule; then phase 2: five identical threads strictly one after the other, each followed by the public flush. "
+                "Oracles: the C01 oracles (guard registry, quarantine allocator) and the C02 census across record reuse; the number of "
+                "live bookkeeping blocks (arena blocks that are neither client nodes nor harness memory) must be flat over the last "
+                "three sequential generations and below 8+6*(peak simultaneously live threads). Non-trivial: a thread started without "
+                "any new bookkeeping allocation (its record was recycled) while at least two threads were alive. Distinct: program + "
+                "order of destructions.",
+        "nontrivial_floor": 0.02,
+        "assumptions": ["sequentially consistent interleavings", "bookkeeping = every heap block allocated by xenium code outside client node allocations"],
     },
 }
